@@ -20,8 +20,8 @@ ASSUMPTIONS = [
 LEVEL = "other"
 NOT_COVERED = ["losslessness of the zlib / bz2 / snappy / brotli codecs (third-party; assumed)",
                "_parseExtensionsHeader and the extension handling inside the opening handshake (C07)",
-               "decompression inside the frame hooks (onFrameBegin / onFrameData) with a negotiated extension; the header "
-               "decision on RSV bits with an extension is part of the C02 header unit", "streaming send with compression",
+               "what the codec inflates a chunk to (arbitrary octets here; a damaged stream makes it raise, and that exception "
+               "is not turned into a protocol failure by the library)", "streaming send with compression",
                "bzip2 / snappy / brotli negotiation classes (same structure, not built)"]
 CD = "autobahn.websocket.compress_deflate"
 PARAMS = ("odict:client_max_window_bits=@vals,client_no_context_takeover=@vals,server_max_window_bits=@vals,"
